@@ -610,6 +610,16 @@ class Nullness:
                 # a, b = helper(): one value per element
                 self.assign_of_call[id(n.ast.value)] = (
                     [path_of(x, n.frame) for x in n.ast.targets[0].elts], n)
+        # helper(other_helper(...)): the value in flight is what the
+        # parameter is bound to
+        self.param_of_call = {}
+        for n in g.of_kind('bind'):
+            a = n.extra.get('arg')
+            if isinstance(a, _ast.Call) and not n.extra.get('is_self'):
+                q = path_of(_ast.Name(id=n.extra['param'], ctx=_ast.Load()),
+                            n.frame)
+                if q:
+                    self.param_of_call[id(a)] = q
 
     @staticmethod
     def _set(st, key, val):
@@ -628,9 +638,17 @@ class Nullness:
         from ..facts import atoms_of_test
         if isinstance(label, tuple):
             return st
+        if n.kind == 'bind' and isinstance(n.extra.get('arg'), _ast.Call) \
+                and id(n.extra['arg']) in self.param_of_call:
+            r = self._get(st, '$ret')
+            st = self._set(st, '$ret', None)
+            if isinstance(r, tuple) and r[0] == 't':
+                r = 'obj'
+            return self._set(st, self.param_of_call[id(n.extra['arg'])], r)
         if n.kind == 'stmt' and isinstance(n.ast, _ast.Return) and \
-                n.frame.call is not None and \
-                id(n.frame.call) in self.assign_of_call:
+                n.frame.call is not None and (
+                    id(n.frame.call) in self.assign_of_call or
+                    id(n.frame.call) in self.param_of_call):
             v = n.ast.value
             if v is None or (isinstance(v, _ast.Constant) and
                              v.value is None):
@@ -654,7 +672,8 @@ class Nullness:
                 if known in ('none', 'obj'):
                     return self._set(st, '$ret', known)
             if isinstance(v, _ast.Tuple) and isinstance(
-                    self.assign_of_call[id(n.frame.call)][0], list):
+                    self.assign_of_call.get(id(n.frame.call), (None,))[0],
+                    list):
                 return self._set(st, '$ret', ('t', tuple(
                     self._const(x, n.frame) or (
                         'obj' if isinstance(x, (_ast.Tuple, _ast.List,
